@@ -694,6 +694,56 @@ struct Summary {
     controls_ok: bool,
 }
 
+/// The premise of every comparison: the probes of one request put the same bytes on the wire except for the characters of
+/// the presented signature. Returns the requests for which that is not so (a harness fault, never a verdict on the crate).
+fn premise_broken(seed: u64, reqs: &[Req], probes: &[Probe]) -> Vec<usize> {
+    let mask = |c: &Case, presented: &str| -> Vec<u8> {
+        let mut all: Vec<u8> = Vec::new();
+        all.extend_from_slice(&c.wire.uri);
+        for (n, v) in &c.wire.headers {
+            all.push(b'\n');
+            all.extend_from_slice(n);
+            all.push(b':');
+            all.extend_from_slice(v);
+        }
+        all.push(b'\n');
+        all.extend_from_slice(&c.wire.body);
+        let p = presented.as_bytes();
+        let mut out = Vec::with_capacity(all.len());
+        let mut i = 0;
+        while i < all.len() {
+            if i + p.len() <= all.len() && all[i..i + p.len()].eq_ignore_ascii_case(p) {
+                out.extend(std::iter::repeat(b'#').take(p.len()));
+                i += p.len();
+            } else {
+                out.push(all[i]);
+                i += 1;
+            }
+        }
+        out
+    };
+    let mut bad = Vec::new();
+    for k in 0..reqs.len() {
+        let mut reference: std::collections::HashMap<bool, Vec<u8>> = std::collections::HashMap::new();
+        for p in probes.iter().filter(|p| p.request == k && p.mode == Mode::Validate) {
+            let copy_group = p.group == "non-selected-copy";
+            let m = mask(&case_for_probe(&reqs[k], seed, k, p), &p.presented);
+            match reference.get(&copy_group) {
+                None => {
+                    reference.insert(copy_group, m);
+                }
+                Some(r0) if *r0 != m => {
+                    if !bad.contains(&k) {
+                        bad.push(k);
+                    }
+                }
+                _ => {}
+            }
+        }
+    }
+    bad
+}
+
 fn analyse(reqs: &[Req], probes: &[Probe], traces: &[Trace], profile: &str) -> Summary {
     let mut t = Tally::new();
     let mut controls_ok = true;
@@ -820,6 +870,8 @@ fn analyse(reqs: &[Req], probes: &[Probe], traces: &[Trace], profile: &str) -> S
 fn main() {
     let args: Vec<String> = std::env::args().collect();
     sv::exec::install_panic_hook();
+    // probes of one request must be the same wire bytes except for the signature's characters
+    sv::gen::set_literal_signature_spelling(true);
     let _ = log::set_logger(&COUNT_LOGGER);
     log::set_max_level(log::LevelFilter::Off);
     if args.len() >= 2 && args[1] == "raw" {
@@ -842,7 +894,12 @@ fn main() {
         }
         let workers = probes.len().clamp(8, 26);
         let traces = trace_all(seed, &reqs, &probes, workers);
-        let s = analyse(&reqs, &probes, &traces, &profile);
+        let mut s = analyse(&reqs, &probes, &traces, &profile);
+        let broken = premise_broken(seed, &reqs, &probes);
+        if !broken.is_empty() {
+            s.tally.violations.clear();
+            s.tally.inconclusive.push(format!("[{}] harness fault: the probes of request(s) {:?} differ on the wire in more than the signature's characters", profile, broken));
+        }
         println!(
             "RAW profile={} compared={} identical_requests={} violations={} inconclusive={} controls_ok={}",
             profile,
@@ -877,6 +934,13 @@ fn main() {
     let traces = trace_all(seed, &reqs, &probes, ctx.threads.max(1));
     let s = analyse(&reqs, &probes, &traces, "release");
     let mut tally = s.tally;
+    let broken = premise_broken(seed, &reqs, &probes);
+    if !broken.is_empty() {
+        tally.violations.clear();
+        tally.inconclusive.push(format!("harness fault: the probes of request(s) {:?} differ on the wire in more than the signature's characters", broken));
+    } else {
+        tally.count("premise_checked_probes_differ_in_signature_characters_only");
+    }
     // thorough: repeat a subset on the `checked` build profile
     let mut extra = J::obj();
     if let Ok(other) = std::env::var("VERIF_C07_EXTRA") {
